@@ -217,12 +217,16 @@ def run_unit(unit_dir, repo="/repo", vacuity=True, timeout=900):
                                           rlimit=f.get("rlimit", 0), success=f.get("success")))
     except Exception:
         pass
-    if hard_errors:
+    # a named obligation that the solver refuted stays a violation when, in the same run, another query also ran out
+    # of resources (Verus keeps searching for further errors after the first); any other hard error is undecided
+    only_limits = all(h.startswith("solver limit:") for h in hard_errors)
+    if hard_errors and not (res.failed and only_limits):
         res.status = "undecided"
         res.reason = "; ".join(hard_errors)[:3000]
         return res
     if res.failed:
         res.status = "violated"
+        res.reason = "; ".join(hard_errors)[:1000]
         return res
     if not vr.get("success") or res.verified == 0:
         res.reason = "verus did not report success (verified=%d errors=%d)" % (res.verified, res.errors)
@@ -231,7 +235,7 @@ def run_unit(unit_dir, repo="/repo", vacuity=True, timeout=900):
     got = {f["function"].split("::")[-1] for f in res.functions if f["success"]}
     for rec in ex.functions:
         if rec["contract"]:
-            fn = rec["item"].split("::")[-1].split(" ")[-1]
+            fn = rec.get("emit_name") or rec["item"].split("::")[-1].split(" ")[-1]
             if fn not in got:
                 res.reason = "contracted function %s missing from Verus function breakdown" % rec["item"]
                 return res
@@ -292,7 +296,9 @@ def _extern_args(dep):
 
 
 if __name__ == "__main__":
-    r = run_unit(sys.argv[1])
+    _args = [a for a in sys.argv[2:]]
+    _repo = _args[_args.index("--repo") + 1] if "--repo" in _args else "/repo"
+    r = run_unit(sys.argv[1], repo=_repo, vacuity="--no-vacuity" not in _args)
     print(r.status, r.reason, r.verified, r.errors, r.wall_s)
     for o in r.failed:
         print("FAILED", o.name, o.repo_span)
